@@ -410,7 +410,7 @@ def main(tier='quick', seed=0, repo=None):
             'same_function_overlap_named': {n: stats.overlap.get(n, 0) for n in NAMED_PROBES},
             'sim_runs_per_hour': int(sim_runs / max(wall, 1e-6) * 3600), 'seeds_per_hour': int(evaluations / max(wall, 1e-6) * 3600),
             'reference_seconds': round(t_ref, 1), 'components': COMPONENTS,
-            'violations_total_mismatching_runs': found.total, 'exhaustive': False,
+            'exhaustive': False,
         }
         for n in NAMED_PROBES:
             if stats.runs['S1'] and not stats.overlap.get(n):
